@@ -32,8 +32,10 @@ def zeros_like(
         ImageType = type(image)
         return ImageType(np.zeros(image.shape, dtype=dtype), **image.metadata())
     elif mode == "voxels":
+        # One value per space-time voxel (the metadata carries the series flag).
+        voxels_shape = image.shape[: image.space_dim + image.time_dim]
         return darsia.ScalarImage(
-            np.zeros(image.num_voxels, dtype=dtype), **image.metadata()
+            np.zeros(voxels_shape, dtype=dtype), **image.metadata()
         )
 
 
@@ -60,6 +62,8 @@ def ones_like(
         ImageType = type(image)
         return ImageType(np.ones(image.shape, dtype=dtype), **image.metadata())
     elif mode == "voxels":
+        # One value per space-time voxel (the metadata carries the series flag).
+        voxels_shape = image.shape[: image.space_dim + image.time_dim]
         return darsia.ScalarImage(
-            np.ones(image.num_voxels, dtype=dtype), **image.metadata()
+            np.ones(voxels_shape, dtype=dtype), **image.metadata()
         )
